@@ -138,3 +138,8 @@ def oxi_parse_lines(lines):
         except Exception as e:
             out.append(None)
     return out
+
+
+def mat_seq(items):
+    """Several materialize_set calls in THIS process, in the given order: [{'config','cwd'}] -> list of results."""
+    return [mat_set(it['config'], it.get('cwd')) for it in items]
